@@ -61,6 +61,7 @@ def plan(tier):
     aparts = [f"0:{k}" for k in range(4)] if tier == "quick" else [f"0:{n},1:{k}" for n in range(2) for k in range(4)]
     return [
         K("conformance", "harness.walk", "conformance_job", "shim builders vs real mypy", timeout=1200),
+        K("attr_conformance", "harness.c01", "attribute_conformance_job", "attribute-annotation builders vs real mypy", timeout=600),
         K("k_placeholder_paths", "kjobs.c01", "placeholder_paths", "index arithmetic for dot-less qualified names"),
         CH("aliases", "harness.c01", "aliases", aparts, timeout=t, desc="_get_aliases never raises",
            symbolic="package and module names (str over {a,b}, <= 2 chars)", stubs=["mypy node/type classes -> shim"]),
@@ -69,6 +70,8 @@ def plan(tier):
            desc="default-value expressions never raise", stubs=["mypy -> shim"]),
         CH("returns", "harness.c01", "returns", [f"0:{k}" for k in range(12)], timeout=t, desc="returned expressions never raise",
            stubs=["mypy -> shim"]),
+        CH("attribute_annotations", "harness.c01", "attribute_annotations", [f"0:{k}" for k in range(8)], timeout=t,
+           desc="Final (0, 1, 2 arguments), list/set with several arguments, bare list on class and instance attributes", stubs=["mypy -> shim"]),
         CH("shadowing", "harness.c01", "shadowing_class_names", [""], timeout=t, desc="classes named like built-in containers"),
         CH("types", "harness.c05", "analyser", tparts, timeout=t, desc="type translation never raises", stubs=["mypy -> shim"]),
         CH("generate", "harness.c01", "generate_total", [f"0:{c}" for c in range(2)], timeout=t, desc="generation never raises",
